@@ -596,7 +596,7 @@ func c29Finish(c *Ctx) {
 func init() {
 	Register(&Scenario{Prop: "C27", Name: "remote-tell", Variants: []string{"stock", "small"}, Quick: 600, Thorough: 60000,
 		EstSteps: 20000, MaxSteps: 3000000, MaxIdle: time.Hour, Real: remReal, Stub: remStub, Run: c27Run, Finish: c27Finish})
-	Register(&Scenario{Prop: "C28", Name: "remote-ask", Variants: []string{"stock"}, Quick: 600, Thorough: 60000,
+	Register(&Scenario{Prop: "C28", Name: "remote-ask", Variants: []string{"stock", "small"}, Quick: 1200, Thorough: 60000,
 		EstSteps: 20000, MaxSteps: 3000000, MaxIdle: time.Hour, Real: remReal, Stub: remStub, Run: c28Run, Finish: c28Finish})
 	Register(&Scenario{Prop: "C29", Name: "remote-metadata", Variants: []string{"stock", "small"}, Quick: 600, Thorough: 60000,
 		EstSteps: 20000, MaxSteps: 3000000, MaxIdle: time.Hour, Real: remReal, Stub: remStub, Run: c28Run, Finish: c29Finish})
